@@ -151,15 +151,27 @@ fn check_predict(code: usize) -> Option<String> {
     let stdin: String = LINES.iter().map(|l| format!("{}\n", l)).collect();
     let want = expected_predict(no_norm, tags, scores, tag_scores, WSCONST[w]);
     match run("predict", &args, &stdin) {
-        Err(e) => Some(format!("predict {:?}: {}", &args[2..], e)),
+        Err(e) => return Some(format!("predict {:?}: {}", &args[2..], e)),
         Ok(got) => {
             if got != want {
-                Some(format!("predict {:?}: {}", &args[2..], first_diff(&want, &got)))
-            } else {
-                None
+                return Some(format!("predict {:?}: {}", &args[2..], first_diff(&want, &got)));
             }
         }
     }
+    // the same lines with CR LF line ends and without a newline after the last line: the same output, line by line
+    // (input lines that themselves contain CR or LF are left out of this variant)
+    if code % 4 == 0 {
+        let stdin2: String = LINES.iter().map(|l| l.to_string()).collect::<Vec<_>>().join("\r\n");
+        match run("predict", &args, &stdin2) {
+            Err(e) => return Some(format!("predict {:?} (CR LF input, no final newline): {}", &args[2..], e)),
+            Ok(got) => {
+                if got != want {
+                    return Some(format!("predict {:?} (CR LF input, no final newline): {}", &args[2..], first_diff(&want, &got)));
+                }
+            }
+        }
+    }
+    None
 }
 
 // ---- evaluate ----
